@@ -291,6 +291,10 @@ def check_c01(tier, seed):
     run_batch(out, "bigwrite", "A", big)
     for dn, hs in random_batches(seed, tier, 60, 600, 40, dicts=("A", "B")).items():
         run_batch(out, f"random{dn}", dn, hs)
+    # listing order on the alphabets where the CFB order (upper-cased code units, shorter first) differs from
+    # other plausible orders: ASCII punctuation around the letters, caseless / non-BMP characters
+    for dn, hs in random_batches(seed + 13, tier, 24, 300, 40, dicts=("G", "D")).items():
+        run_batch(out, f"order{dn}", dn, hs)
     return finish(out, "model_checking",
                   "G1b: every transition of the MC_Tree state graph replayed on the real library (last two steps heavy + query battery); "
                   "every transition of the MC_Dir sibling-tree graph (every reachable tree shape x every insertion / removal, 5 keys quick / 6 thorough); "
